@@ -22,7 +22,7 @@ sys.path.insert(0, os.path.join(VERIF, 'extract'))
 import sexpr  # noqa: E402
 
 FMT = {32: (24, 127), 64: (53, 1023), 80: (64, 16383)}
-LIBM_ULPS = 2
+LIBM_ULPS = 4   # glibc documents up to 4 ulps for cbrt(double) on x86-64 (2.01 observed in 300 000 samples)
 NSHARDS = 16
 VARIANTS = {
     'O1': ['-O1'],
